@@ -74,6 +74,13 @@ Matrix == {[kind |-> k, ctx |-> x, depth |-> d, expect |-> Expect(k, x, d)] : k 
 InvokePairs == {<<"plain", "callback">>, <<"plain", "host-invoke">>, <<"plain", "host-invoke-unpooled">>,
                 <<"try-catch", "try-in-callback">>, <<"try-catch", "try-in-callback-unpooled">>}
 ASSUME InvokeSame == \A p \in InvokePairs, k \in Kinds, d \in Depths : Expect(k, p[1], d) = Expect(k, p[2], d)
+\* Run binds the host's arguments to the main function's parameter list before the loop (and its recover) starts, an
+\* Invoker does the same for the function it calls: every (fixed parameters, variadic?, argument count) must bind -
+\* missing arguments are undefined, surplus ones go to the variadic parameter or are dropped (lenient by design)
+ParamShapes == [fixed : 0..3, variadic : BOOLEAN, nargs : 0..5]
+BoundFixed(s) == IF s.nargs < s.fixed THEN s.nargs ELSE s.fixed
+RestLen(s) == IF s.variadic /\ s.nargs > s.fixed THEN s.nargs - s.fixed ELSE 0
+ASSUME BindTotal == \A s \in ParamShapes : BoundFixed(s) \in 0..s.fixed /\ RestLen(s) >= 0 /\ BoundFixed(s) + RestLen(s) <= s.nargs
 ASSUME CSVWrite("%1$s", <<ToJson(Matrix)>>, IOEnv.OUT)
 ASSUME CSVWrite("%1$s", <<ToJson(InvokePairs)>>, IOEnv.OUT)
 =============================================================================
